@@ -36,9 +36,15 @@ def C01_exh_statement : Prop :=
     ∀ sol', Spec.validRec o sol' = true → sol' ∈ Spec.allMappings S o →
       Cost.le (totalCost c .plain o sol) (totalCost c .plain o sol') = true
 
-/-- The full statement for the THL solver, inside the coherent region. -/
+/-- The full statement for the THL solver, inside the coherent region, for a
+    binary species tree containing the leaf species (both guards are necessary:
+    `C01_incoherent_witness`, `C01_thl_wf_needed`).  PROVED as `C01_thl`
+    (together with `C01_thl_total`, `C01_thl_all`, `C01_thl_eq_exhaustive`) in
+    `Properties/C01Thl.lean`. -/
 def C01_thl_statement : Prop :=
-  ∀ (c : Costs) (S : RTree) (o : OTree), c.spe ≤ c.dup + 2 * c.floss → ∀ sol ∈ thl c S o,
+  ∀ (c : Costs) (S : RTree) (o : OTree), S.isBinary = true →
+    (∀ p, p ∈ leafSpeciesOf o → S.isNode p = true) →
+    c.spe ≤ c.dup + 2 * c.floss → ∀ sol ∈ thl c S o,
     Spec.validRec o sol = true ∧
     ∀ sol', Spec.validRec o sol' = true → sol' ∈ Spec.allMappings S o →
       Cost.le (totalCost c .plain o sol) (totalCost c .plain o sol') = true
